@@ -26,20 +26,6 @@ Proof. intros; unfold u64; apply Z.mod_small; assumption. Qed.
 Lemma two64_pos : 0 < two64.
 Proof. reflexivity. Qed.
 
-(* ---- hasPart_loop ---- *)
-Lemma segs_ok_weaken : forall v l k b, segs_ok v k b l -> segs_ok v k true l \/ b = false.
-Proof. intros v l k [|] H; auto. Qed.
-
-(* no entry of a window starting at k has an id below k *)
-Lemma hasPart_loop_below : forall v l k b M p,
-  segs_ok v k b l -> M < k -> hasPart_loop l M p = false.
-Proof.
-  intros v l; induction l as [|[d|id ps d] r IH]; intros k b M p Hok Hlt; simpl; auto.
-  - destruct Hok as [_ Hok]. eapply IH; [exact Hok|lia].
-  - destruct Hok as [-> [_ Hok]].
-    replace (M =? k) with false by lia. eapply IH; [exact Hok|lia].
-Qed.
-
 (* the entry at media sequence number M, if any *)
 Definition entry (k : Z) (l : list seg) (M : Z) : option seg :=
   if M <? k then None else nth_error l (Z.to_nat (M - k)).
@@ -75,52 +61,6 @@ Qed.
 
 Lemma entry_nil : forall k M, entry k [] M = None.
 Proof. intros; unfold entry. destruct (M <? k); [reflexivity|]. destruct (Z.to_nat (M - k)); reflexivity. Qed.
-
-(* what the loop computes on a well-formed Low-Latency window *)
-Definition loop_spec (k : Z) (l : list seg) (M p : Z) : bool :=
-  match entry k l M with
-  | Some (Seg _ ps _) =>
-      (p <? zlen ps) || match entry k l (M + 1) with Some _ => true | None => false end
-  | _ => false
-  end.
-
-Lemma hasPart_loop_spec : forall l k b M p,
-  segs_ok LL k b l -> 0 <= k -> M + 1 < two64 -> 0 <= p ->
-  hasPart_loop l M p = loop_spec k l M p.
-Proof.
-  induction l as [|[d|id ps d] r IH]; intros k b M p Hok Hk HM Hp.
-  - unfold loop_spec, entry; simpl. destruct (M <? k); [reflexivity|].
-    destruct (Z.to_nat (M - k)); reflexivity.
-  - destruct Hok as [_ Hok]. simpl hasPart_loop.
-    destruct (Z.lt_trichotomy M k) as [Hlt|[->|Hgt]].
-    + rewrite (hasPart_loop_below LL r (k + 1) false M p Hok) by lia.
-      unfold loop_spec, entry. replace (M <? k) with true by lia. reflexivity.
-    + rewrite (hasPart_loop_below LL r (k + 1) false k p Hok) by lia.
-      unfold loop_spec. rewrite entry_cons_hd. reflexivity.
-    + rewrite (IH (k + 1) false M p Hok) by lia.
-      unfold loop_spec. rewrite !entry_cons_tl by lia. reflexivity.
-  - destruct Hok as [-> [Hps Hok]]. simpl hasPart_loop.
-    destruct (Z.lt_trichotomy M k) as [Hlt|[->|Hgt]].
-    + replace (M =? k) with false by lia.
-      rewrite (hasPart_loop_below LL r (k + 1) true M p Hok) by lia.
-      unfold loop_spec, entry. replace (M <? k) with true by lia. reflexivity.
-    + rewrite Z.eqb_refl. unfold loop_spec. rewrite entry_cons_hd.
-      rewrite entry_cons_tl by lia.
-      destruct (zlen ps <=? p) eqn:E.
-      * replace (p <? zlen ps) with false by lia. rewrite orb_false_l.
-        rewrite u64_id by lia.
-        destruct r as [|[d'|id' ps' d'] r'].
-        -- rewrite entry_nil. reflexivity.
-        -- destruct Hok as [Hc _]; discriminate.
-        -- destruct Hok as [-> [Hps' _]]. simpl hasPart_loop. rewrite Z.eqb_refl.
-           rewrite entry_cons_hd.
-           assert (1 <= zlen ps') by (apply zlen_pos_nonempty; auto).
-           replace (zlen ps' <=? 0) with false by lia. reflexivity.
-      * replace (p <? zlen ps) with true by lia. reflexivity.
-    + replace (M =? k) with false by lia.
-      rewrite (IH (k + 1) true M p Hok) by lia.
-      unfold loop_spec. rewrite !entry_cons_tl by lia. reflexivity.
-Qed.
 
 (* ---- the range check ---- *)
 Lemma range_reject_spec : forall v s M,
@@ -159,36 +99,58 @@ Proof.
   - rewrite zlen_cons. pose proof (zlen_nonneg _ l). split; [congruence|intros _; lia].
 Qed.
 
-(* decide on a well-formed Low-Latency stream with content *)
-Lemma decide_core_spec : forall s M p,
-  wf_stream LL s -> in_range s -> segments s <> [] -> 0 <= M -> 0 <= p ->
-  decide_core LL s M p =
-    if (nextSegmentID s + 1 <? M) || (M <=? head_msn s) then Respond400
-    else if M =? nextSegmentID s then
-           match nextSegment s with
-           | Some ps => if p <? zlen ps then Ready else Block
-           | None => DPanic
-           end
-         else if loop_spec (segmentDeleteCount s) (segments s) M p then Ready else Block.
+(* ---- hasPart on a well-formed stream with content ---- *)
+Definition open_has (s : stream) (p : Z) : option bool :=
+  match nextSegment s with None => None | Some ps => Some (p <? zlen ps) end.
+
+Lemma hasPart_spec : forall v s M p,
+  wf_stream v s -> in_range s -> segments s <> [] -> 0 <= M ->
+  hasPart s M p =
+    if M =? nextSegmentID s then open_has s p
+    else if (M <? segmentDeleteCount s) || (nextSegmentID s <? M) then Some false
+         else match entry (segmentDeleteCount s) (segments s) M with
+              | None => None
+              | Some (Gap _) => Some true
+              | Some (Seg _ parts _) =>
+                  if p <? zlen parts then Some true
+                  else if negb (M + 1 =? nextSegmentID s) then Some true
+                       else open_has s 0
+              end.
 Proof.
-  intros s M p W R Hne HM Hp. unfold decide_core.
-  rewrite (range_reject_spec LL s M W R Hne HM).
-  destruct ((nextSegmentID s + 1 <? M) || (M <=? head_msn s)) eqn:ER; [reflexivity|].
-  replace (hasContent LL s) with true by (symmetry; apply hasContent_LL; exact Hne).
-  unfold hasPart. destruct (M =? nextSegmentID s) eqn:EM.
-  - destruct (nextSegment s); [|reflexivity]. destruct (p <? zlen l); reflexivity.
-  - destruct (wf_segs _ _ W) as [b Hok].
-    rewrite (hasPart_loop_spec _ _ b M p Hok (wf_dc _ _ W)); [|unfold in_range in R; lia|exact Hp].
-    destruct (loop_spec _ _ _ _); reflexivity.
+  intros v s M p W R Hne HM. unfold hasPart, open_has.
+  pose proof (wf_next _ _ W Hne) as Hn. pose proof (wf_dc _ _ W) as Hd.
+  pose proof (zlen_pos_nonempty _ _ Hne) as Hl. unfold in_range in R.
+  destruct (M =? nextSegmentID s) eqn:EM; simpl negb; cbv iota; [reflexivity|].
+  rewrite (u64_id (zlen (segments s))) by lia.
+  rewrite (u64_id (nextSegmentID s - zlen (segments s))) by lia.
+  replace (nextSegmentID s - zlen (segments s)) with (segmentDeleteCount s) by lia.
+  destruct ((M <? segmentDeleteCount s) || (nextSegmentID s <? M)) eqn:ER; [reflexivity|].
+  unfold entry. replace (M <? segmentDeleteCount s) with false by lia.
+  destruct (nth_error (segments s) (Z.to_nat (M - segmentDeleteCount s))) as [[d|id parts d]|]; try reflexivity.
+  rewrite (u64_id (M + 1)) by lia. reflexivity.
 Qed.
 
-Lemma decide_no_panic : forall s M p,
-  wf_stream LL s -> decide_core LL s M p <> DPanic.
+(* inside the window the indexed entry exists: no index-out-of-range panic *)
+Lemma entry_in_window : forall v s M,
+  wf_stream v s -> segments s <> [] -> segmentDeleteCount s <= M < nextSegmentID s ->
+  exists sg, entry (segmentDeleteCount s) (segments s) M = Some sg.
 Proof.
-  intros s M p W. unfold decide_core. destruct (range_reject s M); [discriminate|].
+  intros v s M W Hne H. apply entry_some_within. rewrite <- (wf_next _ _ W Hne). exact H.
+Qed.
+
+Lemma decide_no_panic : forall s M P,
+  wf_stream LL s -> in_range s -> 0 <= M -> decide_core LL s M P <> DPanic.
+Proof.
+  intros s M P W R HM. unfold decide_core. destruct (range_reject s M); [discriminate|].
   destruct (hasContent LL s) eqn:EC; [|discriminate].
   apply hasContent_LL in EC. pose proof (wf_open _ _ W EC) as Ho.
-  unfold hasPart. destruct (M =? nextSegmentID s).
-  - destruct (nextSegment s); [|congruence]. destruct (p <? zlen l); discriminate.
-  - destruct (hasPart_loop _ _ _); discriminate.
+  destruct P as [p|]; [|destruct (M <? nextSegmentID s); discriminate].
+  rewrite (hasPart_spec LL s M p W R EC HM). unfold open_has.
+  destruct (nextSegment s) as [ps|]; [|congruence].
+  destruct (M =? nextSegmentID s) eqn:EM; [destruct (p <? zlen ps); discriminate|].
+  destruct ((M <? segmentDeleteCount s) || (nextSegmentID s <? M)) eqn:ER; [discriminate|].
+  destruct (entry_in_window LL s M W EC) as [sg Hs]; [lia|]. rewrite Hs.
+  destruct sg as [d|id parts d]; [discriminate|].
+  destruct (p <? zlen parts); [discriminate|]. destruct (negb (M + 1 =? nextSegmentID s)); [discriminate|].
+  destruct (0 <? zlen ps); discriminate.
 Qed.
